@@ -282,7 +282,8 @@ def _work_in_subprocess(arg, seed):
     p = subprocess.run([sys.executable, "-c", "import sys; from mc import harness; harness._subprocess_main(sys.argv[1], sys.argv[2])", fin, fout],
                        env=env, cwd=VERIF, capture_output=True, text=True)
     try:
-        if p.returncode != 0 or not os.path.exists(fout):
+        # (the result file is what counts: a native library may still abort while the interpreter shuts down)
+        if not os.path.exists(fout):
             return {"index": index, "error": f"shard subprocess (PYTHONHASHSEED={seed}) failed:\n{p.stderr[-3000:]}", "shard": shard}
         with open(fout, "rb") as f:
             out = pickle.load(f)
@@ -502,7 +503,11 @@ def run_check(check_id, tier, seed):
         if os.environ.get("VERIF_NO_RECHECK") != "1" and other_hash_seed(vs[0]["case"]) is not None:
             # explored under another string-hash seed: re-execute the case in a fresh interpreter under that seed
             if not case_reproduces(check_id, vs[0], sig):
-                raise InfraError(f"violation did not reproduce on re-execution under its hash seed (uncaptured nondeterminism?): {sig}")
+                if not shard_reproduces(check_id, vs[0], sig):
+                    raise InfraError(f"violation did not reproduce on re-execution under its hash seed, neither as a case nor as a shard "
+                                     f"(uncaptured nondeterminism?): {sig}")
+                vs[0] = dict(vs[0], case={"__shard__": vs[0].get("shard")},
+                             detail="[history-dependent: reproduces only after the earlier cases of its shard; replay re-runs the shard] " + vs[0]["detail"])
         elif os.environ.get("VERIF_NO_RECHECK") != "1" and isinstance(vs[0]["case"], dict) and "__shard__" in vs[0]["case"]:
             # the violation is about a whole shard (an exception out of the library in the middle of it)
             if not shard_reproduces(check_id, vs[0], sig):
@@ -601,7 +606,10 @@ def shard_reproduces(check_id, violation, sig):
     path = os.path.join(d, "case.json")
     with open(path, "w") as f:
         json.dump({"property": check_id, "case": {"__shard__": violation["shard"]}}, f)
-    p = subprocess.run([sys.executable, os.path.join(VERIF, "run_check.py"), "--replay", path], capture_output=True, text=True)
+    env = dict(os.environ)
+    if other_hash_seed(violation["shard"]) is not None:
+        env.pop("_MC_INNER", None)   # through the outer stage, which starts the interpreter under the shard's hash seed
+    p = subprocess.run([sys.executable, os.path.join(VERIF, "run_check.py"), "--replay", path], capture_output=True, text=True, env=env)
     return f"signature: {sig}" in p.stdout
 
 
